@@ -73,12 +73,12 @@ pub fn run(env: &Env, rep: &Report) {
     rep.set_rule("interleavings of predict (possibly empty), skip_epochs_for_scene, wasted, idle_tracks_with_scene, clear_wasted, set_auto_waste(0|1|2|100), current_epoch_with_scene and shard statistics over 1..3 scenes, max_idle 0..5, shards 1..4, all four trackers. Oracle 1: monitor model (conservation, exact expiry, wasted exactly once, idle set, places partition by walking every shard of both stores, statistics). Oracle 2 (metamorphic): the same history under auto-waste periodicities 0 / 1 / 100 yields identical records, idle sets, epochs and handed-out set. Non-trivial: an operation issued while an expired track is still physically in the live store (oracle 1); runs whose collection timing actually differed (oracle 2); distinct = distinct serialized history");
     rep.assume("which tracks clear_wasted discards is derived by walking the store of collected tracks right before the call; the split between 'handed out' and 'cleared' is not compared across periodicities");
     let pool = IsoPool::new(&env.prop, "lifecycle", std::time::Duration::from_secs(120));
-    let n = env.tier.pick(700, 20_000);
+    let n = env.tier.pick(2_500, 40_000);
     for kind in KINDS {
         par_generated(rep, "lifecycle", move || history(kind, true, 60), n, workers(), iso_check(&pool, rep));
     }
     let pool2 = IsoPool::new(&env.prop, "gc-metamorphic", std::time::Duration::from_secs(120));
-    let n = env.tier.pick(250, 6_000);
+    let n = env.tier.pick(1_200, 16_000);
     for kind in KINDS {
         use proptest::prelude::*;
         par_generated(rep, "gc-metamorphic", move || history_opts(kind, true, 40, false).prop_map(|h| GcCase { h, periods: vec![0, 1, 100] }), n, workers(), iso_check(&pool2, rep));
